@@ -101,8 +101,12 @@ def check(case):
                         if chan == "bytes":
                             obj = BloomFilter.frombytes(bytes(obj), hash_function=fn)
                         elif chan == "file":
-                            with open(path, "wb") as fh:  # an older, larger file is already there
-                                fh.write(b"\x5a" * (len(bytes(obj)) + 977))
+                            with open(path, "wb") as fh:
+                                if step % 2:  # an older, larger file is already there
+                                    fh.write(b"\x5a" * (len(bytes(obj)) + 977))
+                                else:  # or an export with the same size and footer and no bits set
+                                    img = bytes(obj)
+                                    fh.write(bytes(len(img) - 20) + img[-20:])
                             obj.export(path)
                             obj = BloomFilter(filepath=path, hash_function=fn)
                         else:
